@@ -7,6 +7,8 @@ from vf import schemas
 from vf.report import MachineryDefect, Run
 
 EXTRA_VALID = [
+    # a description is the string as written: surrounding blanks, no-break spaces and the inner indentation of a block string are part of it
+    '" padded " type Query { "  f  " a: Int "\u00a0nbsp\u00a0" b(" arg " x: Int): Int """\n  block keeps\n    its inner indentation\n""" c: E } " enum " enum E { " v " A }',
     # descriptions (and deprecations, defaults) belong to the element that declares them: nothing is inherited from an implemented interface, a sibling or the other way round
     'interface I { "documented on the interface" a("arg doc" n: Int = 1): Int @deprecated(reason: "old") b: Int } type A implements I { a(n: Int): Int "only here" b: Int } '
     'type Query implements I { a(n: Int = 2): Int b: Int } extend interface I { "ext" c: Int } extend type A { c: Int } extend type Query { c: Int }',
